@@ -54,6 +54,45 @@ func drawValidTS(t *rapid.T, label string) RawTS {
 	return RawTS{Sec: sec, Nanos: nanos}
 }
 
+// drawWindow returns two valid timestamps lo < hi (strictly). Besides independent bounds it draws the
+// tight shapes: both within one second (differing only in nanos, down to 1 ns) and adjacent seconds
+// ((s, 999999999), (s+1, 0)), where a comparison at the wrong granularity shows.
+func drawWindow(t *rapid.T, label string) (lo, hi RawTS) {
+	switch rapid.IntRange(0, 4).Draw(t, label+"-shape") {
+	case 0, 1:
+		a, b := drawValidTS(t, label+"-a"), drawValidTS(t, label+"-b")
+		if tsLess(b, a) {
+			a, b = b, a
+		}
+		if a == b {
+			if b.Nanos < 999999999 {
+				b.Nanos++
+			} else if b.Sec < tsMaxSec {
+				b.Sec++
+			} else {
+				a.Nanos--
+			}
+		}
+		return a, b
+	case 2: // same second
+		sec := drawValidTS(t, label+"-s").Sec
+		n1 := rapid.Int32Range(0, 999999998).Draw(t, label+"-n1")
+		n2 := rapid.Int32Range(n1+1, 999999999).Draw(t, label+"-n2")
+		return RawTS{sec, n1}, RawTS{sec, n2}
+	case 3: // one nanosecond apart
+		a := drawValidTS(t, label+"-s")
+		if a.Nanos == 999999999 {
+			a.Nanos--
+		}
+		return a, RawTS{a.Sec, a.Nanos + 1}
+	default: // adjacent seconds, nanos ordered the other way round
+		sec := rapid.Int64Range(tsMinSec, tsMaxSec-1).Draw(t, label+"-s")
+		n1 := rapid.Int32Range(1, 999999999).Draw(t, label+"-n1")
+		n2 := rapid.Int32Range(0, n1-1).Draw(t, label+"-n2")
+		return RawTS{sec, n1}, RawTS{sec + 1, n2}
+	}
+}
+
 func tsLess(a, b RawTS) bool { return a.Sec < b.Sec || (a.Sec == b.Sec && a.Nanos < b.Nanos) }
 
 func drawInvalidTS(t *rapid.T, label string) RawTS {
@@ -119,6 +158,7 @@ var connBadDSN = []string{"mysql://ctfe", "mysql://u@tcp(db:3306", "mysql://u@tc
 	"postgres://u@db:port/ctfe", "postgres://u@db:5432/ctfe?sslmode=sometimes", "postgres://u@db/ctfe?connect_timeout=soon",
 	"postgres://%zz@db/ctfe", "postgresql://u@db:99999999/ctfe", "postgres://u@db/ctfe?target_session_attrs=whatever"}
 
+var slashShapes = []string{"", "", "/", "/", "//"}
 var prefixStems = []string{"log", "/log", "ct/log", "/a/b/", "my log", "日志", "-", "x.example/2024h1", "LOG", "l"}
 var backendStems = []string{"be", "backend ", "后端", "B/", "trillian-log."}
 var specStems = []string{"trillian:809", "dns:///log.example:", "10.0.0.1:9", "etcd-resolved-", "[::1]:80"}
@@ -132,9 +172,14 @@ func drawRoot(t *rapid.T, label string) []byte {
 func drawLog(t *rapid.T, idx int, backendNames []string, forInstance bool) RawLog {
 	p := fmt.Sprintf("l%d-", idx)
 	var l RawLog
-	// unique positive id: high part random, low 2 bits = idx
-	l.ID = rapid.OneOf(rapid.Int64Range(1, 1000), rapid.Int64Range(1, 1<<61-1)).Draw(t, p+"id")<<2 | int64(idx)
-	l.Prefix = rapid.SampledFrom(prefixStems).Draw(t, p+"prefix") + fmt.Sprint(idx)
+	// unique positive id: high part random, low 3 bits = idx
+	l.ID = rapid.OneOf(rapid.Int64Range(1, 1000), rapid.Int64Range(1, 1<<60-1)).Draw(t, p+"id")<<3 | int64(idx)
+	// unique by the embedded index; leading / trailing / doubled slashes are all legal prefix shapes
+	l.Prefix = rapid.SampledFrom(slashShapes).Draw(t, p+"prefix-lead") + rapid.SampledFrom(prefixStems).Draw(t, p+"prefix") + fmt.Sprint(idx) +
+		rapid.SampledFrom(slashShapes).Draw(t, p+"prefix-trail")
+	if forInstance && rapid.IntRange(0, 7).Draw(t, p+"prefix-special") == 0 {
+		l.Prefix = rapid.SampledFrom([]string{"/", "//", "log/", "/log/", "a/b//", "//a//b//", "log", "/log"}).Draw(t, p+"prefix-special-v")
+	}
 	if rapid.IntRange(0, 3).Draw(t, p+"override") == 0 {
 		l.Override = rapid.SampledFrom([]string{"/", "/ct", "x"}).Draw(t, p+"override-v")
 	}
@@ -183,19 +228,7 @@ func drawLog(t *rapid.T, idx int, backendNames []string, forInstance bool) RawLo
 	}
 	switch rapid.IntRange(0, 3).Draw(t, p+"window") {
 	case 0: // both, strictly ordered (start == limit is a "don't care" input)
-		a, b := drawValidTS(t, p+"ts-a"), drawValidTS(t, p+"ts-b")
-		if tsLess(b, a) {
-			a, b = b, a
-		}
-		if a == b {
-			if b.Nanos < 999999999 {
-				b.Nanos++
-			} else if b.Sec < tsMaxSec {
-				b.Sec++
-			} else {
-				a.Nanos--
-			}
-		}
+		a, b := drawWindow(t, p+"win")
 		l.Start, l.Limit = &a, &b
 	case 1:
 		a := drawValidTS(t, p+"ts-a")
@@ -226,7 +259,7 @@ func drawLog(t *rapid.T, idx int, backendNames []string, forInstance bool) RawLo
 }
 
 func drawBackends(t *rapid.T) []RawBackend {
-	n := rapid.IntRange(1, 3).Draw(t, "nbackends")
+	n := rapid.IntRange(1, 4).Draw(t, "nbackends")
 	var bs []RawBackend
 	for i := 0; i < n; i++ {
 		bs = append(bs, RawBackend{
